@@ -38,7 +38,9 @@ theorem find?_of_mem {α : Type} (m : AList SlabID α) (x : SlabID) (j : α) (h 
       · exact ih h
 
 /-- Every recorded index is a valid position of the parent array, PROVIDED the association list
-    has no duplicate keys (so that `find?` sees every entry). -/
+    has no duplicate keys (so that `find?` sees every entry).
+    SUPERSEDED (audit a5, S6) by `recorded_index_in_range'` (Props/C10IdxW.lean: from `WorldOk'` and
+    `IdxNodup` only) and `C10Hist.history_index_shifts_never_fail` (no hypothesis at all). -/
 theorem recorded_index_in_range (w : World) (hmi : MutIdxOk w) (p : SlabID) (a : Arr)
     (hp : w.cont? p = some (.arr a)) (hnd : (AList.keys (w.idxOf p)).Nodup)
     (x : SlabID) (j : Nat) (hmem : (x, j) ∈ w.idxOf p) : j < a.toList.length := by
@@ -48,7 +50,10 @@ theorem recorded_index_in_range (w : World) (hmi : MutIdxOk w) (p : SlabID) (a :
   exact this
 
 /-- `incrementIndexFrom` cannot fail after an in-range insert: every shifted index stays below the
-    new count. -/
+    new count.
+    SUPERSEDED (audit a5, S6) by `increment_never_fails'` (Props/C10IdxW.lean: `hmi`, `hnd`, `hcnt`
+    discharged from `WorldOk'` and `IdxNodup`) and, for every world reached by a history, by
+    `C10Hist.history_index_shifts_never_fail` (no hypothesis at all). -/
 theorem increment_never_fails (w : World) (hmi : MutIdxOk w) (p : SlabID) (a : Arr)
     (hp : w.cont? p = some (.arr a)) (hnd : (AList.keys (w.idxOf p)).Nodup)
     (hcnt : a.count = a.toList.length) (i : Nat) :
